@@ -325,7 +325,10 @@ class Oracle:
         # something is dotted: a dot precedes the typed prefix, on this line or - inside brackets - on an earlier one
         prev3 = self._tokens_before(o - len(p.prefix), 3)
         tok_dot = bool(prev3) and prev3[-1][1] == _token.OP and prev3[-1][2] == "."
-        p.dotted = rest.endswith(".") or tok_dot
+        # (the dot that ends a float literal - `3. else` - is part of a NUMBER token, not an attribute access)
+        p.dotted = tok_dot or (rest.endswith(".") and not prev3 and not re.search(r"(^|[^\w.])\d[\d_]*\.$", rest))
+        if rest.endswith(".") and prev3 and not tok_dot and prev3[-1][1] != _token.NUMBER:
+            p.dotted = True              # inside a string / comment the token stream does not see the dot
         # the receiver when it is a plain name: `box . |`, `(box.\n   |`
         p.receiver = None
         if tok_dot and len(prev3) >= 2 and prev3[-2][1] == _token.NAME and not keyword.iskeyword(prev3[-2][2]) \
